@@ -54,6 +54,18 @@ def run(tier, seed, build):
     rng = random.Random(seed * 577 + 15)
     n = 300 if tier == "quick" else 4000
     docs = c04.gen_docs(rng, n // 2) + gen_unsat_docs(rng, n - n // 2)
+    # every fifth hand-written document ends without a newline, its last statement an `equal` whose last item is starred (when it has one)
+    for i, d in enumerate(docs):
+        if d["source"] != "hand" or i % 5 != 1: continue
+        r2 = random.Random(seed * 100003 + i)
+        lines = list(d["lines"])
+        star = [k for k, l in enumerate(lines) if l[0] == "equal" and l[1] and l[1][-1][1]]
+        if star:
+            k = r2.choice(star); last = lines.pop(k); lines.append(last)
+            d["lines"] = lines
+            d["text"] = pepper.pil_text(r2, lines[:-1], handwritten=True) + "equal " + " ".join(n + ("*" if s else "") for n, s in last[1])
+        elif "#" not in d["text"].rstrip("\n").split("\n")[-1]:      # (the reader only strips comments that end in a newline)
+            d["text"] = d["text"].rstrip("\n")
     failures, stats = c04.evaluate(docs)
     return {"evaluations": 2 * len(docs), "distinct_nontrivial": len(stats["nontrivial"]),
             "rule": "PIL documents as in C04 plus documents with planted hairpins pairing a domain with itself, long odd cycles through starred equal statements over odd-length domains, template clashes inside a repeated sequence, and over-constraints that live only among sequences no strand uses (clashing equal lines, a sequence equal to its own complement, clashing super-sequences); both layouts; the implementation must raise the over-constrained error exactly when the denotation-level oracle finds no assignment. Non-trivial = unsatisfiable, or satisfiable with shared classes",
